@@ -126,6 +126,21 @@ func c18RepoContent(repo *repository, src string) int {
 		return c18.UnknownCid
 	}
 
+	// the rule bodies: contents c and c+16 share the ids and differ in the paths
+	twin := false
+
+	for _, r := range repo.knownRules {
+		if r.SrcID() == src && r.ID() == fmt.Sprintf("r%d", cid) {
+			for _, rt := range r.Routes() {
+				twin = twin || strings.HasPrefix(rt.Path(), "/t")
+			}
+		}
+	}
+
+	if twin {
+		return cid + 16
+	}
+
 	return cid
 }
 
